@@ -114,6 +114,10 @@ func GenPair(t *rapid.T, o GenOpts) (c, s EP, m Meta) {
 	case "ecdsa", "ed25519":
 		fam12 = SuitesECDSA
 		s.Cert = m.Family
+		if m.Family == "ecdsa" {
+			// chain shapes: leaf + root, leaf alone, leaf + intermediate
+			s.Cert = rapid.SampledFrom([]string{"ecdsa", "ecdsa", "ecdsa-leafonly", "ecdsa-inter"}).Draw(t, "schain")
+		}
 	case "rsa":
 		fam12 = SuitesRSA
 		s.Cert = "rsa"
@@ -206,9 +210,9 @@ func GenPair(t *rapid.T, o GenOpts) (c, s EP, m Meta) {
 		if s.ClientAuth >= 3 {
 			s.ClientCAs = true
 		}
-		ccs := []string{"", "client-ecdsa", "client-ed25519", "client-rsa"}
+		ccs := []string{"", "client-ecdsa", "client-ed25519", "client-ecdsa-leafonly", "client-ecdsa-inter", "client-rsa"}
 		if m.Version == 13 || m.Dual != "" {
-			ccs = ccs[:3]
+			ccs = ccs[:5]
 		}
 		cc := rapid.SampledFrom(ccs).Draw(t, "ccert")
 		if s.ClientAuth == 2 || s.ClientAuth == 4 {
